@@ -30,6 +30,48 @@ ASSUMPTIONS = ["a loop-specific await hidden in a path that no enumerated case e
                "H-close for the predicted token sequence (user aclose() does not suspend)"]
 
 
+
+# ---- asyncio tripwire: hand-driven operations have no event loop, so the library has no business asking for one ---------
+
+_TRIP = []
+
+
+class _Tripwire:
+    """records every use of asyncio's loop lookup / future / lock / sleep machinery while an operation is hand-driven"""
+    NAMES = [("asyncio.events", "get_running_loop"), ("asyncio.events", "_get_running_loop"),
+             ("asyncio.events", "get_event_loop"), ("asyncio.events", "new_event_loop"),
+             ("asyncio", "get_running_loop"), ("asyncio", "get_event_loop"), ("asyncio", "new_event_loop"),
+             ("asyncio", "current_task"), ("asyncio.tasks", "current_task"), ("asyncio", "sleep"), ("asyncio.tasks", "sleep"),
+             ("asyncio", "ensure_future"), ("asyncio.tasks", "ensure_future"), ("asyncio", "create_task"),
+             ("asyncio.tasks", "create_task")]
+
+    def __enter__(self):
+        import importlib
+        del _TRIP[:]
+        self.saved = []
+        for modname, name in self.NAMES:
+            mod = importlib.import_module(modname)
+            orig = getattr(mod, name)
+            self.saved.append((mod, name, orig))
+
+            def wrapper(*a, _orig=orig, _n=modname + "." + name, **k):
+                _TRIP.append(_n)
+                return _orig(*a, **k)
+            setattr(mod, name, wrapper)
+        return self
+
+    def __exit__(self, *exc):
+        for mod, name, orig in self.saved:
+            setattr(mod, name, orig)
+        return False
+
+
+def _tripped(obs):
+    if _TRIP:
+        obs["log_issues"] = list(obs["log_issues"]) + [("touches-asyncio", {"calls": sorted(set(_TRIP)), "n": len(_TRIP)})]
+    return obs
+
+
 # ---- family 1: S1 tools -------------------------------------------------------------------------------------
 
 
@@ -324,8 +366,113 @@ def _conc_cached_property_lock():
     return [c(), c(), c()], [0, 1, 2, 0, 1, 2] * 6
 
 
+
+class _OverlapSrc:
+    """class-based source that tolerates overlapping __anext__ calls (each suspends once)"""
+
+    def __init__(self, keys):
+        self.keys, self.i = list(keys), 0
+
+    def __aiter__(self):
+        return self
+
+    async def __anext__(self):
+        await Susp(["u", "osrc", self.i])
+        if self.i >= len(self.keys):
+            raise StopAsyncIteration
+        k = self.keys[self.i]
+        self.i += 1
+        return Item(self.i, k)
+
+
+def _conc_groupby_parent_and_group():
+    """A advances the current group and is suspended inside the source while B advances the groupby itself"""
+    g = A.groupby(_OverlapSrc([1, 1, 2, 2, 1]), key=lambda v: v.key)
+    box = {}
+
+    async def first():
+        box["k"], box["grp"] = await A.anext(g)
+        return box["k"]
+
+    async def a():
+        return [x.id async for x in box["grp"]]
+
+    async def b():
+        return [k async for k, _ in g]
+    return [first(), a(), b()], [0, 0, 1, 2, 1, 2, 1, 2] * 4
+
+
+def _conc_groupby_same_group():
+    """two tasks advance the same group"""
+    g = A.groupby(_OverlapSrc([1, 1, 1, 2]), key=lambda v: v.key)
+    box = {}
+
+    async def first():
+        box["k"], box["grp"] = await A.anext(g)
+        return box["k"]
+
+    async def a():
+        return [x.id async for x in box["grp"]]
+    return [first(), a(), a()], [0, 0, 1, 2, 1, 2] * 4
+
+
+def _conc_tee_nolock():
+    """two children of a lock-free tee are in flight inside the source at the same time"""
+    t = A.tee(_OverlapSrc([1, 2, 3]), n=2)
+
+    async def reader(i):
+        return [x.id async for x in t[i]]
+    return [reader(0), reader(1)], [0, 1, 0, 1] * 8
+
+
+def _conc_borrow_two_readers():
+    h = A.borrow(_OverlapSrc([1, 2, 3]))
+
+    async def reader():
+        out = []
+        try:
+            async for x in A.iter(h):
+                out.append(x.id)
+        except RuntimeError:
+            out.append("busy")
+        return out
+    return [reader(), reader()], [0, 1, 0, 1] * 6
+
+
+def _conc_cached_property_nolock():
+    class C:
+        @A.cached_property
+        async def v(self):
+            await Susp(["u", "getter"])
+            return 7
+    o = C()
+
+    async def c():
+        return await o.v
+    return [c(), c()], [0, 1, 0, 1] * 3
+
+
+def _conc_contextmanager_overlap():
+    @A.contextmanager
+    async def cm(i):
+        await Susp(["u", "enter", i])
+        try:
+            yield i
+        finally:
+            await Susp(["u", "exit", i])
+
+    @cm(9)
+    async def f(x):
+        await Susp(["u", "body", x])
+        return x
+    return [f(1), f(2)], [0, 1, 0, 1, 1, 0] * 2
+
+
 CONC = {"conc_tee_close_busy": _conc_tee_close_busy, "conc_tee_lock": _conc_tee_lock, "conc_lru_overlap": _conc_lru_overlap,
-        "conc_cached_property_lock": _conc_cached_property_lock}
+        "conc_cached_property_lock": _conc_cached_property_lock,
+        "conc_groupby_parent_and_group": _conc_groupby_parent_and_group, "conc_groupby_same_group": _conc_groupby_same_group,
+        "conc_tee_nolock": _conc_tee_nolock, "conc_borrow_two_readers": _conc_borrow_two_readers,
+        "conc_cached_property_nolock": _conc_cached_property_nolock, "conc_contextmanager_overlap": _conc_contextmanager_overlap}
 
 
 def _observe_conc(case):
@@ -460,11 +607,14 @@ def observe(case):
         p = subprocess.run([sys.executable, "-c", NOLOOP % world.REPO], capture_output=True, text=True, timeout=60)
         return {"stdout": p.stdout.strip(), "stderr": p.stderr.strip()[-600:], "tokens": [], "throws": [], "log_issues": [],
                 "async": {"out": ["returned", ["n"]], "vis": []}}
-    if fam == "scenario":
-        return _observe_scenario(case)
-    if fam == "conc":
-        return _observe_conc(case)
-    return _observe_tool(case)
+    with _Tripwire():
+        if fam == "scenario":
+            obs = _observe_scenario(case)
+        elif fam == "conc":
+            obs = _observe_conc(case)
+        else:
+            obs = _observe_tool(case)
+        return _tripped(obs)
 
 
 def model_request(case):
